@@ -31,6 +31,14 @@ import time
 from . import coqrun, paths, pool, findings as fnd, native
 
 
+def _sig(prop, fid, c, o, code):
+    """Does case c (with implementation output o) match the signature of finding fid?"""
+    f = getattr(prop, "FINDINGS", {})[fid]
+    if getattr(prop, "TAGGED", False):
+        return f(c, o, code >> 2)
+    return f(c, o)
+
+
 def _jd(x):
     return json.dumps(x, sort_keys=True, ensure_ascii=True)
 
@@ -46,19 +54,32 @@ def load_corpus(pid):
     return out
 
 
+_POOLS = {}
+
+
 def impl_eval(prop, cases):
-    return pool.run_cases(
-        prop.IMPL, cases,
-        hard_timeout=getattr(prop, "HARD_TIMEOUT", 60),
-        env_extra=getattr(prop, "WORKER_ENV", None),
-        basilisp=getattr(prop, "BASILISP", True),
-        nworkers=getattr(prop, "NWORKERS", None))
+    key = prop.ID
+    if key not in _POOLS:
+        _POOLS[key] = pool.Pool(
+            prop.IMPL,
+            hard_timeout=getattr(prop, "HARD_TIMEOUT", 60),
+            env_extra=getattr(prop, "WORKER_ENV", None),
+            basilisp=getattr(prop, "BASILISP", True),
+            nworkers=getattr(prop, "NWORKERS", None))
+    return _POOLS[key].map(cases)
+
+
+def close_pools():
+    for p in _POOLS.values():
+        p.close()
+    _POOLS.clear()
 
 
 def classify(prop, cases, outs):
     terms = [f"({prop.coq_case(c)}, {prop.coq_out(o)})" for c, o in zip(cases, outs)]
     return coqrun.classify(prop.CORR, terms, shard=getattr(prop, "SHARD", 400),
-                           extra_require=getattr(prop, "EXTRA_REQUIRE", ""))
+                           extra_require=getattr(prop, "EXTRA_REQUIRE", ""),
+                           tagged=getattr(prop, "TAGGED", False))
 
 
 def write_replay(pid, name, payload):
@@ -188,7 +209,7 @@ def run_check(prop, tier="quick", seed=0, replay=None):
         expl = None
         if code & 2 == 0:
             for fid in sig:
-                if fid in open_ids and sig[fid](c, o):
+                if fid in open_ids and _sig(prop, fid, c, o, code):
                     expl = fid
                     break
         if expl:
@@ -225,7 +246,7 @@ def run_check(prop, tier="quick", seed=0, replay=None):
             isbad = bool(code & 1)
             if isbad and code & 2 == 0:
                 for fid in sig:
-                    if fid in open_ids and sig[fid](c, o):
+                    if fid in open_ids and _sig(prop, fid, c, o, code):
                         isbad = False
             res.append(isbad)
         return res
@@ -334,4 +355,7 @@ def main(argv):
     a = ap.parse_args(argv)
     seed = int(os.environ.get("VERIF_SEED", "0"))
     prop = importlib.import_module(f"harness.props.{a.prop.lower()}")
-    return run_check(prop, a.tier, seed, a.replay)
+    try:
+        return run_check(prop, a.tier, seed, a.replay)
+    finally:
+        close_pools()
